@@ -243,6 +243,12 @@ func replay(sub string, raw json.RawMessage) ([]h.Failure, error) {
 	case "parse":
 		f, _ := checkParse(fromCps(c.Text))
 		return f, nil
+	case "deep":
+		var dc deepCase
+		if err := json.Unmarshal(raw, &dc); err != nil {
+			return nil, err
+		}
+		return checkDeep(dc), nil
 	case "unrepresentable":
 		var t tagged
 		if err := json.Unmarshal(c.Value, &t); err != nil {
@@ -543,6 +549,78 @@ func checkUnrepresentable(d zn.Value, bad, plant string) []h.Failure {
 		return []h.Failure{{Sig: "unrepresentable/accepted", Msg: fmt.Sprintf("%s: the value has no JSON form; expected a catchable exception, got %s", desc, o.Short())}}
 	}
 	return nil
+}
+
+// deeply nested dictionaries: whatever 生成JSON writes, 解析JSON reads back (a depth one
+// direction refuses must be refused by the other as well - with a catchable exception)
+type deepCase struct {
+	Depth int    `json:"depth"`
+	Shape string `json:"shape"` // dict | list | mixed
+}
+
+const deepProg = "导入《@JSON》\n输入D\n令文 = （生成JSON：D）\n（显示：“generated”）\n令回 = （解析JSON：文）\n输出回 为 D\n拦截异常：\n    输出“caught”"
+
+func checkDeep(c deepCase) []h.Failure {
+	if strings.HasPrefix(c.Shape, "unclosed-") {
+		// a malformed document: c.Depth opening levels that are never closed
+		unit := map[string]string{"unclosed-objects": "{\"k\":", "unclosed-lists": "[", "unclosed-mixed": "{\"k\":["}[c.Shape]
+		o := h.Run(parseProg, h.Opts{Inputs: map[string]r.Element{"T": value.NewString("{\"top\":" + strings.Repeat(unit, c.Depth))}, EvalTicks: 50000000})
+		desc := fmt.Sprintf("the unclosed document {\"top\": followed by %d times %s", c.Depth, unit)
+		if o.Kind != h.KValue || o.ValType != "string" || o.ValText != "caught" {
+			return []h.Failure{{Sig: "deep/malformed-not-caught", Msg: fmt.Sprintf("%s must raise an exception the handler catches; got %s %s", desc, o.Short(), o.PanicMsg)}}
+		}
+		return nil
+	}
+	var v zn.Value = float64(1)
+	for i := c.Depth; i >= 1; i-- {
+		asList := c.Shape == "list" || (c.Shape == "mixed" && i%2 == 0)
+		if asList && i > 1 {
+			v = &zn.ListV{Items: []zn.Value{v}}
+		} else {
+			d := zn.NewDict()
+			d.Set("a", v)
+			v = d
+		}
+	}
+	o := h.Run(deepProg, h.Opts{Inputs: map[string]r.Element{"D": zn.ToElem(v)}, EvalTicks: 50000000})
+	desc := fmt.Sprintf("a dictionary nested %d levels deep (%s)", c.Depth, c.Shape)
+	switch o.Kind {
+	case h.KPanic:
+		return []h.Failure{{Sig: "deep/go-panic@" + o.PanicSite, Msg: desc + ": " + o.PanicMsg}}
+	case h.KBudget, h.KNil:
+		return []h.Failure{{Sig: "deep/" + o.Kind, Msg: desc}}
+	case h.KError:
+		return []h.Failure{{Sig: "deep/uncatchable-error", Msg: fmt.Sprintf("%s: the error escaped the 拦截异常 handler: %s", desc, o.Short())}}
+	}
+	generated := len(o.Trace) > 0
+	if !generated {
+		if o.ValText != "caught" {
+			return []h.Failure{{Sig: "deep/odd-outcome", Msg: desc + ": " + o.Short()}}
+		}
+		return nil // refused by the writer, with a catchable exception
+	}
+	if o.ValType != "bool" || o.ValText != "真" {
+		return []h.Failure{{Sig: "deep/written-but-not-read-back", Msg: fmt.Sprintf("%s: 生成JSON wrote it, but 解析JSON of that text gives %s", desc, o.Short())}}
+	}
+	return nil
+}
+
+func TestDeepDictionaries(t *testing.T) {
+	n := 0
+	for _, shape := range []string{"dict", "list", "mixed"} {
+		for _, d := range []int{1, 2, 100, 5000, 9998, 9999, 10000, 10001, 10002, 10003, 12000, 20001, 30000} {
+			c := deepCase{Depth: d, Shape: shape}
+			h.R.Case(t, "deep", fmt.Sprintf("%s-%d", shape, d), c, []string{"nesting-depth-" + shape}, d >= 9998, checkDeep(c))
+			n++
+		}
+	}
+	for _, shape := range []string{"unclosed-objects", "unclosed-lists", "unclosed-mixed"} {
+		for _, d := range []int{1, 9999, 10001, 100000, 4000000} {
+			c := deepCase{Depth: d, Shape: shape}
+			h.R.Case(t, "deep", fmt.Sprintf("%s-%d", shape, d), c, []string{"malformed-deep-document:" + shape}, d > 10000, checkDeep(c))
+		}
+	}
+	h.R.Exhaustive("deep", fmt.Sprintf("%d nesting depths around the documented bound (1..30000) x 3 shapes; unclosed documents of 1..4000000 levels x 3 shapes", n/3))
 }
 
 func TestUnrepresentable(t *testing.T) {
